@@ -311,3 +311,15 @@ gproof! { fn c14_union_debug_by_value() {
     assert!(vrt::ip_calls(OP_DEBUG) == 1 && unsafe { vrt::IP_SELF } == d0, "F2 ArcUnion Debug does not format the value");
     core::mem::forget(u);
 } }
+
+// @h props=C12,C14 fuc=ArcUnion::eq,ArcUnion::ptr_eq note="the SAME allocation held as first and as second variant (equal payload types): still different variants, never equal"
+gproof! { fn c12_union_eq_cross_variant_same_allocation() {
+    let a = Arc::new(S1::any());
+    let a2 = a.clone();
+    let u1: ArcUnion<S1, S1> = ArcUnion::from_first(a);
+    let u2: ArcUnion<S1, S1> = ArcUnion::from_second(a2);
+    assert!(!ArcUnion::ptr_eq(&u1, &u2) && !ArcUnion::ptr_eq(&u2, &u1));
+    assert!(!(u1 == u2) && !(u2 == u1));
+    core::mem::forget(u1);
+    core::mem::forget(u2);
+} }
